@@ -114,3 +114,17 @@ def crunDR (s : CStateD) : List StepD → Except TErr (Option CStateD)
 def cstartD : CStateD := ⟨Fog.init, [], []⟩
 
 end PyTrie.HexD
+
+namespace PyTrie.HexD
+open PyTrie.Hex PyTrie.Fog
+
+variable (H : Bytes → Bytes)
+
+/-- `items()` at raw level: the pairs `(prefix + suffix, value)` of the nodes `nodes()` yields that carry a value
+    (`keys()` / `values()` are its projections) -/
+def itemsOfD (db : Db) (root : Hash) (fuel : Nat) : Except TErr (List (Path × Bytes)) :=
+  match nodesOfD H db root fuel with
+  | .error e => .error e
+  | .ok l => .ok (l.filterMap fun e => if e.2.value ≠ [] then some (e.1 ++ e.2.suffix, e.2.value) else none)
+
+end PyTrie.HexD
